@@ -3,6 +3,7 @@ Shared by C02 (numbers rendered as plain text), C14 and C09."""
 
 from __future__ import annotations
 
+import ast
 from typing import Any, Dict, FrozenSet, List, Optional, Tuple
 
 from .frontend import AnalysisError, Program
@@ -187,6 +188,49 @@ def flatten_table(prog: Program) -> List[NormRow]:
     if not rows:
         raise Unmodelled("flatten: the element loop of _flatten_recurse was not reached")
     return rows
+
+
+def flatten_reach(prog: Program) -> Optional[List[Tuple[str, List[str]]]]:
+    """Paths of the recursive worker that end normally without entering its element loop, whatever the extra arguments hold
+    (the recursion hands them on, so inside a nested container they are not what flatten() passed at the top): a list of
+    (outcome, conditions); [] when every normal path iterates the argument (or has established that it is empty); None when
+    the worker cannot be run on its own."""
+    I = Interp(prog)
+    cfg = Config()
+    cfg.stop_at_loop = ("_flatten_recurse", 0)
+    try:
+        fn = prog.function(UTIL, "_flatten_recurse")
+    except Exception:
+        return None
+    params = [a.arg for a in fn.args.posonlyargs + fn.args.args + fn.args.kwonlyargs]
+    if not params:
+        return None
+
+    def mk(run: Any) -> Tuple[Dict[str, Any], Any]:
+        env: Dict[str, Any] = {params[0]: SObj("x", {"LIST"})}
+        for q in params[1:]:
+            ann = next((a.annotation for a in fn.args.args + fn.args.kwonlyargs if a.arg == q), None)
+            txt = ast.unparse(ann).lower() if ann is not None else ""
+            kind = "SET" if txt.startswith(("set", "frozenset")) else "DICT" if txt.startswith("dict") else "LIST" if txt.startswith("list") else None
+            env[q] = SObj(q, {kind} if kind else {"INT"}, origin="opaque")
+        return (env, None)
+
+    bad: List[Tuple[str, List[str]]] = []
+    seen_loop = False
+    try:
+        for l in I.run_function(UTIL, "_flatten_recurse", mk, cfg):
+            if getattr(l.run, "stop_loop_record", None) is not None:
+                seen_loop = True
+                continue
+            if l.kind not in ("return", "fall"):
+                continue
+            dom = getattr(l.run, "count_dom", {}) or {}
+            if dom and all(set(v) == {0} for v in dom.values()):
+                continue
+            bad.append((l.kind, [str(lbl) for _, lbl in l.atoms]))
+    except Unmodelled:
+        return None
+    return bad if seen_loop else None
 
 
 def predicate_table(prog: Program, name: str) -> Dict[str, Any]:
